@@ -185,7 +185,8 @@ type vfC14Cfg struct {
 	Tags    []string                `json:"tags"`
 	Conns   map[string]vfC14ConnCfg `json:"conns"`
 	Name    string                  `json:"name"`
-	Scale   string                  `json:"scale"` // "" identity; "extreme": model value class -> extreme ints
+	Scale   string                  `json:"scale"`  // "" identity; "extreme": model value class -> extreme ints
+	MaxVal  int                     `json:"maxval"` // largest model tag value: the upsert function is x -> min(x+1, MaxVal)
 }
 
 type vfC14MPeer struct {
@@ -286,6 +287,44 @@ type vfC14Sys struct {
 	bfn     connmgr.BumpFn
 	ldnext  time.Time
 	dclosed bool
+	// user callbacks as interference points: a burst another goroutine would deliver while the manager is
+	// inside the caller's upsert function - possible only if the segment lock is NOT held there (TryLock)
+	cbBurst []vfh.Op
+	cbRan   bool
+}
+
+// tryWindow is called from inside a user callback of the manager.  If the locks the burst needs are free,
+// an operation of another goroutine could be scheduled exactly here: deliver the burst synchronously.
+func (s *vfC14Sys) tryWindow() bool {
+	burst := s.cbBurst
+	if len(burst) == 0 || s.cbRan {
+		return false
+	}
+	for _, op := range burst {
+		p := op.S("p")
+		if c, ok := s.conns[op.S("c")]; ok {
+			p = c.pname
+		}
+		if p == "" || op.Name() == "protect" || op.Name() == "unprotect" {
+			continue
+		}
+		seg := s.cm.segments.get(s.pid[p])
+		if !seg.TryLock() {
+			return false // the manager holds the lock around the callback: the window does not exist
+		}
+		seg.Unlock()
+	}
+	s.cbBurst = nil
+	done := make(chan struct{})
+	go func() {
+		defer close(done)
+		for _, op := range burst {
+			s.step(op)
+		}
+	}()
+	<-done
+	s.cbRan = true
+	return true
 }
 
 // scale map of the VALUE dimension.  The model's tag values are small classes; the order-preserving map
@@ -701,14 +740,62 @@ func (s *vfC14Sys) step(op vfh.Op) (string, string, any, any) {
 		delete(s.ltags[op.S("p")], op.S("t"))
 	case "upsert":
 		p, t := op.S("p"), op.S("t")
-		f := func(x int) int { return s.scale(s.unscale(x) + 1) }
+		f := func(x int) int {
+			c := s.unscale(x) + 1
+			if s.cfg.MaxVal != 0 {
+				c = min(c, s.cfg.MaxVal)
+			}
+			return s.scale(c)
+		}
 		if op.Has("set") { // ledger-driven histories: the upsert function returns a fixed value
 			set := op.I("set")
 			f = func(int) int { return set }
 		}
-		s.cm.UpsertTag(s.pid[p], t, f)
+		// what the ledger holds if the upsert is ordered BEFORE a burst landing inside its callback
+		before := map[string]int{}
+		for k, v := range s.ltags[p] {
+			before[k] = v
+		}
+		s.cbRan = false
+		s.cm.UpsertTag(s.pid[p], t, func(x int) int { s.tryWindow(); return f(x) })
+		s.cbBurst = nil
 		s.touch(p)
-		s.ltags[p][t] = f(s.ltags[p][t])
+		if !s.cbRan {
+			s.ltags[p][t] = f(s.ltags[p][t])
+			break
+		}
+		// a burst ran inside the callback (the ledger already reflects it): the outcome must be that of one of
+		// the two sequential orders.  burst;upsert -> f(current); upsert;burst -> the burst's effect on f(old)
+		orderA := f(s.ltags[p][t])
+		before[t] = f(before[t])
+		orderB, hasB := before[t], true
+		for _, b := range vfC14BurstOf(op) {
+			switch {
+			case b.Name() == "tag" && b.S("p") == p && b.S("t") == t:
+				orderB = s.scale(b.I("v"))
+			case b.Name() == "untag" && b.S("p") == p && b.S("t") == t:
+				hasB = false
+			case b.Name() == "disconnected" && s.conns[b.S("c")].pname == p && len(s.lconns[p]) == 0 && !b.B("dup"):
+				hasB = false
+			}
+		}
+		got, has := 0, false
+		if ti := s.cm.GetTagInfo(s.pid[p]); ti != nil {
+			got, has = ti.Tags[t]
+		}
+		switch {
+		case has && got == orderA:
+			s.ltags[p][t] = orderA
+		case has == hasB && (!has || got == orderB):
+			if has {
+				s.ltags[p][t] = orderB
+			} else {
+				delete(s.ltags[p], t)
+			}
+		default:
+			return "tag-total", fmt.Sprintf("UpsertTag(%s,%s) with %v delivered inside its callback: the tag is the outcome of neither sequential order", p, t, vfC14BurstOf(op)),
+				map[string]any{"burst_then_upsert": orderA, "upsert_then_burst": map[string]any{"value": orderB, "present": hasB}}, map[string]any{"value": got, "present": has}
+		}
 	case "bump":
 		p := op.S("p")
 		err := s.dtag.Bump(s.pid[p], op.I("dl"))
@@ -892,6 +979,12 @@ func vfC14CaseKey(inst, src string, op vfh.Op) string {
 	h.Write([]byte{0})
 	h.Write(b)
 	return string(h.Sum(nil))
+}
+
+// burst returns the operations scheduled for delivery inside the callback of this upsert step
+func vfC14BurstOf(op vfh.Op) []vfh.Op {
+	l, _ := op["_burst"].([]vfh.Op)
+	return l
 }
 
 // compareLedger runs the checks that need no model state: the connection count against the ledger of
@@ -1502,7 +1595,8 @@ func vfC14StressRound(t *testing.T, seed int64, phase int) (string, string, any,
 // not have reached.
 type vfC14Script struct {
 	ID       int             `json:"id"`
-	Entry    string          `json:"entry"` // "trim" (TrimOpenConns / the ticker's trim) or "force"
+	Entry    string          `json:"entry"`  // "trim" (TrimOpenConns / the ticker's trim), "force" or "upsert"
+	Upsert   vfh.Op          `json:"upsert"` // entry "upsert": the UpsertTag call inside whose callback `window` is delivered
 	Prefix   []vfh.Op        `json:"prefix"`
 	Window   []vfh.Op        `json:"window"`
 	Post     []vfh.Op        `json:"post"`
@@ -1554,6 +1648,9 @@ func (s *vfC14Sys) gateApply(op vfh.Op) {
 // vfC14RunScript executes one script with the burst delivered at the k-th callback of the chosen kind
 // (k = 0: never, a dry run that only counts the callbacks).  Must run inside a synctest bubble.
 func vfC14RunScript(cfg vfC14Cfg, sc vfC14Script, k int, useTicker bool) (status string, nStat, nClose int, mm *vfh.Mismatch) {
+	if sc.Entry == "upsert" && k == 0 {
+		return "dry", 1, 0, nil // the callback runs exactly once
+	}
 	sys, err := vfC14New(cfg)
 	if err != nil {
 		return "MACHINERY: " + err.Error(), 0, 0, nil
@@ -1564,6 +1661,37 @@ func vfC14RunScript(cfg vfC14Cfg, sc vfC14Script, k int, useTicker bool) (status
 		if cls, _, _, _ := sys.step(op); cls != "" {
 			return "prefix-diverged", 0, 0, nil // sequential disagreements are the replay test's business
 		}
+	}
+	if sc.Entry == "upsert" {
+		op := vfh.Op{}
+		for k, v := range sc.Upsert {
+			op[k] = v
+		}
+		op["_burst"] = sc.Window
+		sys.cbBurst = sc.Window
+		cls, what, exp, got := sys.step(op)
+		if !sys.cbRan {
+			return "window-closed", 1, 0, nil // the lock is held around the callback: atomic, nothing to interleave
+		}
+		if cls == "" || strings.HasPrefix(cls, "L2:") {
+			cls, what, exp, got = sys.compareLedger()
+		}
+		if cls == "" {
+			for _, p := range sys.cfg.Peers {
+				for _, c := range vfC14Keys(sys.lconns[p]) {
+					sys.step(vfh.Op{"name": "disconnected", "c": c})
+				}
+			}
+			if n := sys.cm.GetInfo().ConnCount; n != 0 {
+				cls, what, exp, got = "conn-count", "ConnCount after the Disconnected of every connection announced so far", 0, n
+			}
+		}
+		if cls != "" && !strings.HasPrefix(cls, "L2:") {
+			all := append(append(append([]vfh.Op{}, sc.Prefix...), vfh.Op{"name": "BEGIN UpsertTag callback", "p": sc.Upsert.S("p"), "t": sc.Upsert.S("t")}), sc.Window...)
+			return "mismatch", 1, 0, &vfh.Mismatch{Class: cls, What: "after a call delivered inside UpsertTag's callback (segment lock free there): " + what, Walk: sc.ID, Step: 1, Expected: exp, Got: got, Prefix: all,
+				Cfg: map[string]any{"instance": cfg.Name, "conf": cfg, "script": sc.ID, "entry": sc.Entry, "window": sc.Window}}
+		}
+		return "ok", 1, 0, nil
 	}
 	burst, atStat := sc.Window, true
 	if len(burst) == 0 {
@@ -2040,6 +2168,32 @@ func vfC14DecayHistory(t *testing.T, res *vfh.Result, seed int64, h int) {
 		{"zerokeep", func(v connmgr.DecayingValue) (int, bool) { return 0, false }},
 	}
 	bumps := []connmgr.BumpFn{connmgr.BumpSumUnbounded(), connmgr.BumpSumBounded(-3, 9), connmgr.BumpOverwrite()}
+	// DecayFn / BumpFn are user callbacks too: if the peer's segment lock is free inside one, a call of another
+	// goroutine could land there - deliver a TagPeer on that peer (the ledger's plain tags do not depend on
+	// where it lands).  The manager calls them inside the critical section, so the window is closed.
+	var peers []*vfC14DPeer
+	ncb := 0
+	inside := func(id peer.ID) {
+		ncb++
+		if ncb%3 != 0 {
+			return
+		}
+		for _, p := range peers {
+			if p.id != id {
+				continue
+			}
+			seg := cm.segments.get(id)
+			if !seg.TryLock() {
+				res.Inc("decay_callback_windows_closed", 1)
+				return
+			}
+			seg.Unlock()
+			res.Inc("decay_callback_windows_open", 1)
+			v := ncb%7 - 2
+			cm.TagPeer(id, "u", v)
+			p.exist, p.plain["u"] = true, v
+		}
+	}
 	var tags []*vfC14DTag
 	for i := 0; i < 4; i++ {
 		d := decays[rnd.Intn(len(decays))]
@@ -2047,14 +2201,17 @@ func vfC14DecayHistory(t *testing.T, res *vfh.Result, seed int64, h int) {
 			d = decays[[]int{1, 6}[h%2]] // every history has a function that erases with a non-zero `after`
 		}
 		dt := &vfC14DTag{name: fmt.Sprintf("d%d", i), decay: d.fn, dkind: d.name, bump: bumps[rnd.Intn(len(bumps))], interval: time.Duration(1+rnd.Intn(3)) * vfC14Unit}
-		dt.tag, err = cm.RegisterDecayingTag(dt.name, dt.interval, dt.decay, dt.bump)
+		// the functions handed to the manager probe the callback window (the ledger calls the raw ones)
+		rawDecay, rawBump := dt.decay, dt.bump
+		dt.tag, err = cm.RegisterDecayingTag(dt.name, dt.interval,
+			func(v connmgr.DecayingValue) (int, bool) { inside(v.Peer); return rawDecay(v) },
+			func(v connmgr.DecayingValue, d int) int { inside(v.Peer); return rawBump(v, d) })
 		if err != nil {
 			t.Fatal(err)
 		}
 		dt.next = start.Add(dt.interval)
 		tags = append(tags, dt)
 	}
-	var peers []*vfC14DPeer
 	for i := 0; i < 3; i++ {
 		name := fmt.Sprintf("q%d", i)
 		p := &vfC14DPeer{id: peer.ID("vfC14d-" + name + string([]byte{byte(i % 2)})), name: name, open: map[string]bool{}, plain: map[string]int{}, dec: map[string]*connmgr.DecayingValue{}}
@@ -2378,6 +2535,9 @@ func vfC14ExtremeHistory(t *testing.T, res *vfh.Result, seed int64, h int) *vfh.
 			op = vfh.Op{"name": "untag", "p": p, "t": tn}
 		case c < 9:
 			op = vfh.Op{"name": "upsert", "p": p, "t": tn, "set": vfC14Num(v)}
+			// a TagPeer of another goroutine inside the upsert callback, if the window exists
+			sys.cbBurst = []vfh.Op{{"name": "tag", "p": p, "t": tn, "v": vfC14Num(vfC14ExtremeSet[rnd.Intn(len(vfC14ExtremeSet))])}}
+			op["_burst"] = sys.cbBurst
 		case c < 13:
 			op = vfh.Op{"name": "connected", "c": conns[rnd.Intn(len(conns))]}
 		case c < 14:
